@@ -79,6 +79,11 @@ def gen_value(ctx, conv, rng):
         n = conv.length or 12
         k = rng.randint(1, min(n, 12)) if rng.random() < 0.9 else n
         s = "".join(rng.choice(STR_ALPHA) for _ in range(k)).strip()
+        if rng.random() < 0.12 and (conv.length is None or conv.length >= 12):
+            # the HELD value shall contain entity-looking text such as '&lt;' (String.convert un-escapes what it is given once)
+            ent = rng.choice(["&amp;lt;", "&amp;gt;", "&amp;amp;", "&amp;quot;", "&amp;nbsp;", "&amp;#39;", "&amp;apos;"])
+            cut = rng.randint(0, min(len(s), 3))
+            s = (s[:cut] + ent + s[cut:cut + 2]).strip()
         return s or "x"
     if type(conv) is T.OneOf:
         return rng.choice([v for v in conv.valid])
@@ -151,6 +156,8 @@ def gen_args(ctx, cls, rng, depth, full=0.5, force=None):
         else:
             kw[k] = gen_value(ctx, t, rng)
     fix_hooks(ctx, cls, rng, args, kw, depth, full, force)
+    if len(args) > 1 and rng.random() < 0.7:
+        rng.shuffle(args)      # repeated children of different kinds may come in any order
     return args, kw
 
 
